@@ -65,6 +65,13 @@ add("C20", "property testing (rapid) with before/after structural invariants (le
     "Generated trees biased to single-child chains with every mix of kinds, parenthetical flags, Conditions holding stacks, aliases, nil elements and mutex-enabled nodes are revealed; two reference walks through the public accessors before/after must give the same leaf/Condition sequence and the same fully-unwrapped form; only redundant wrappers may disappear; nothing appears; no panic; a lock requested while held (self-deadlock) or left held is detected deterministically through the hook. Exploration only.",
     "Trusted: the walker and normal-form computation in c20.go; verifPoint hook events. Acyclic trees without shared instances.")
 
+add("C09", "reflection-enumerated method set x synthesised arguments on read-only receivers; snapshot-unchanged oracle (public getters + VerifDump); writable-twin measurement of non-triviality; rapid-generated call programs",
+    "Every exported method of Stack and Condition (found by reflection, so methods added later are included) is called with 12 (thorough 40) argument variants on 7 richly configured read-only receivers, and in generated programs of up to 8 calls on generated receivers; the full snapshot must be identical after every call apart from the documented exceptions (flag, SetErr, Condition.Init handle), Free must fail, and clearing the flag must restore mutability with identical state. Which calls are real mutators is measured on a writable twin. Total for the enumerated method set, exploration beyond.",
+    "Trusted: VerifDump hook (reads only); closures installed on receivers are pure recorders; argument synthesis by parameter type (novel parameter types fall back to zero values).")
+add("C17", "reflection/parser-enumerated API on inert receivers (total enumeration) + rapid-generated call sequences, Free and Reset cases",
+    "Every exported method of Stack, Condition and Auxiliary x 8 argument variants x 6 inert receiver states, and every package-level function (table generated from /repo's sources) x 24 variants: no panic, zero results by type, the instance stays zero (except Marshal / Condition.Init); Free zeroes writable handles and refuses read-only ones; Reset empties stacks holding nil elements while keeping the configuration. Total for the enumerated API, exploration for sequences.",
+    "Trusted: reflection method sets; go/parser table of package-level functions; strings and Is* predicates are not asserted on inert receivers; constructor capacities are kept small (allocation limits are not the property).")
+
 NOT_YET = {}
 
 ALL = ["C%02d" % i for i in range(1, 21)]
